@@ -1041,6 +1041,410 @@ theorem switchNodes_consistent {g : G} (hc : Consistent g) (a b : Nat) : (switch
         · rename_i e he; exact switchFrom_consistent hc hd' he
         · exact hc
 
+/-! #### composite creators -/
+
+theorem createNodeFromNode_consistent {g : G} (hc : Consistent g) (o : Nat) : (createNodeFromNode o g).All Consistent := by
+  unfold createNodeFromNode
+  split
+  · exact hc
+  · have h1 := createNode_consistent hc
+    rcases hr1 : createNode g with ⟨n, g1⟩ | g1 <;> rw [hr1] at h1 <;> simp only [GOut.All] at h1 ⊢
+    · have h2 := link_consistent h1 o n
+      rcases hr2 : link o n g1 with ⟨e, g2⟩ | g2 <;> rw [hr2] at h2 <;> simpa [GOut.All] using h2
+    · exact h1
+
+theorem createNodeOnEdge_consistent {g : G} (hc : Consistent g) (e : Nat) : (createNodeOnEdge e g).All Consistent := by
+  unfold createNodeOnEdge
+  split
+  · exact hc
+  · rename_i a b hab
+    split
+    · exact hc
+    · have h1 := createNode_consistent hc
+      rcases hr1 : createNode g with ⟨n, g1⟩ | g1 <;> rw [hr1] at h1 <;> simp only [GOut.All] at h1 ⊢
+      · have h2 := unlink_consistent h1 a b
+        rcases hr2 : unlink a b g1 with ⟨l, g2⟩ | g2 <;> rw [hr2] at h2 <;> simp only [GOut.All] at h2 ⊢
+        · have h3 := link_consistent h2 a n
+          rcases hr3 : link a n g2 with ⟨e1, g3⟩ | g3 <;> rw [hr3] at h3 <;> simp only [GOut.All] at h3 ⊢
+          · have h4 := link_consistent h3 n b
+            rcases hr4 : link n b g3 with ⟨e2, g4⟩ | g4 <;> rw [hr4] at h4 <;> simpa [GOut.All] using h4
+          · exact h3
+        · exact h2
+      · exact h1
+
+theorem createNodeFromEdge_consistent {g : G} (hc : Consistent g) (e : Nat) : (createNodeFromEdge e g).All Consistent := by
+  unfold createNodeFromEdge
+  split
+  · exact hc
+  · have h1 := createNodeOnEdge_consistent hc e
+    rcases hr1 : createNodeOnEdge e g with ⟨n, g1⟩ | g1 <;> rw [hr1] at h1 <;> simp only [GOut.All] at h1 ⊢
+    · exact createNodeFromNode_consistent h1 n
+    · exact h1
+
+/-! #### deleteNode: the loops of `isolate_` -/
+
+/-- `unlink` over a list of pairs, stopping at the first one that raises -/
+def unlinkMany : List (Nat × Nat) → G → GOut Unit
+  | [], g => .ok () g
+  | p :: rest, g =>
+    match unlink p.1 p.2 g with
+    | .exc g' => .exc g'
+    | .ok _ g' => unlinkMany rest g'
+
+theorem isolateOut_eq (n : Nat) (l : List Nat) (g : G) : isolateOut n l g = unlinkMany (l.map (fun y => (n, y))) g := by
+  induction l generalizing g with
+  | nil => rfl
+  | cons y r ih =>
+    simp only [isolateOut, List.map_cons, unlinkMany]
+    cases unlink n y g <;> simp [ih]
+
+theorem isolateIn_eq (n : Nat) (l : List Nat) (g : G) : isolateIn n l g = unlinkMany (l.map (fun y => (y, n))) g := by
+  induction l generalizing g with
+  | nil => rfl
+  | cons y r ih =>
+    simp only [isolateIn, List.map_cons, unlinkMany]
+    cases unlink y n g <;> simp [ih]
+
+theorem unlinkMany_consistent {g : G} (hc : Consistent g) (ps : List (Nat × Nat)) : (unlinkMany ps g).All Consistent := by
+  induction ps generalizing g with
+  | nil => exact hc
+  | cons p r ih =>
+    simp only [unlinkMany]
+    have h := unlink_consistent hc p.1 p.2
+    rcases hr : unlink p.1 p.2 g with ⟨l, g1⟩ | g1 <;> rw [hr] at h <;> simp only [GOut.All] at h ⊢
+    · exact ih h
+    · exact h
+
+/-- the relation x -> y is one of the removed ones (either orientation when undirected) -/
+def Rel (d : Bool) (ps : List (Nat × Nat)) (x y : Nat) : Prop := (x, y) ∈ ps ∨ (d = false ∧ (y, x) ∈ ps)
+
+instance (d : Bool) (ps : List (Nat × Nat)) (x y : Nat) : Decidable (Rel d ps x y) := by unfold Rel; infer_instance
+
+structure UnlinkedMany (ps : List (Nat × Nat)) (g g' : G) : Prop where
+  hasNode : ∀ n, g'.hasNode n = g.hasNode n
+  keys : AL.keys g'.nodes = AL.keys g.nodes
+  outE : ∀ x y, g'.outE x y = if Rel g.directed ps x y then none else g.outE x y
+  inE : ∀ x y, g'.inE y x = if Rel g.directed ps x y then none else g.inE y x
+  edges : ∀ e, find e g'.edges =
+    match find e g.edges with
+    | some (a, b) => if Rel g.directed ps a b then none else some (a, b)
+    | none => none
+  rest : g'.directed = g.directed ∧ g'.nextNode = g.nextNode ∧ g'.nextEdge = g.nextEdge ∧ g'.root = g.root
+
+/-- the pairs are distinct relations: a later pair is neither an earlier one nor (undirected) its reverse -/
+def DistinctRel (d : Bool) : List (Nat × Nat) → Prop
+  | [] => True
+  | p :: rest => ¬ Rel d rest p.1 p.2 ∧ DistinctRel d rest
+
+theorem unlinkMany_spec {g : G} (hc : Consistent g) (ps : List (Nat × Nat))
+    (hpres : ∀ p ∈ ps, (g.outE p.1 p.2).isSome = true) (hdist : DistinctRel g.directed ps) :
+    ∃ g', unlinkMany ps g = .ok () g' ∧ Consistent g' ∧ UnlinkedMany ps g g' := by
+  induction ps generalizing g with
+  | nil =>
+    refine ⟨g, rfl, hc, ⟨fun _ => rfl, rfl, ?_, ?_, ?_, by simp⟩⟩
+    · intro x y; simp [Rel]
+    · intro x y; simp [Rel]
+    · intro e; rcases find_cases e g.edges with hf | ⟨⟨a, b⟩, hf⟩ <;> simp [hf, Rel]
+  | cons p r ih =>
+    obtain ⟨a, b⟩ := p
+    have hab := hpres (a, b) (by simp)
+    rcases hO : g.outE a b with _ | e
+    · simp [hO] at hab
+    · obtain ⟨g1, h1, u1⟩ := unlink_some hc hO
+      have hc1 := u1.consistent hc hO
+      have hd1 : g1.directed = g.directed := u1.rest.1
+      obtain ⟨hnr, hdr⟩ := hdist
+      have hpres1 : ∀ p ∈ r, (g1.outE p.1 p.2).isSome = true := by
+        intro q hq
+        rw [u1.outE]
+        have hq' := hpres q (by simp [hq])
+        have : ¬ ((q.1 = a ∧ q.2 = b) ∨ (g.directed = false ∧ q.1 = b ∧ q.2 = a)) := by
+          intro hh
+          apply hnr
+          rcases hh with ⟨h1, h2⟩ | ⟨hd, h1, h2⟩
+          · left; show (a, b) ∈ r; rw [← h1, ← h2]; exact hq
+          · right; refine ⟨hd, ?_⟩; show (b, a) ∈ r; rw [← h1, ← h2]; exact hq
+        simp [this, hq']
+      obtain ⟨g', h2, hc', u2⟩ := ih hc1 hpres1 (by rw [hd1]; exact hdr)
+      refine ⟨g', by simp [unlinkMany, h1, h2], hc', ?_⟩
+      refine ⟨fun n => by rw [u2.hasNode, u1.hasNode], by rw [u2.keys, u1.keys], ?_, ?_, ?_, by simp [u2.rest, u1.rest]⟩
+      · intro x y
+        rw [u2.outE, u1.outE, hd1]
+        simp only [Rel, List.mem_cons, Prod.mk.injEq]
+        grind
+      · intro x y
+        rw [u2.inE, u1.inE, hd1]
+        simp only [Rel, List.mem_cons, Prod.mk.injEq]
+        grind
+      · intro e'
+        rw [u2.edges, u1.edges, find_erase, hd1]
+        by_cases hee : e = e'
+        · subst hee
+          -- the erased edge is the one between a and b
+          have hE := hc.views.out_edge a b e hO
+          rcases hE with hE | ⟨hd, hE⟩
+          · simp [hE, Rel]
+          · simp [hE, Rel, hd]
+        · simp only [hee, if_false]
+          rcases find_cases e' g.edges with hf | ⟨⟨x, y⟩, hf⟩
+          · simp [hf]
+          · simp only [hf]
+            -- an edge other than e is not between a and b
+            have hne : ¬ ((x = a ∧ y = b) ∨ (g.directed = false ∧ x = b ∧ y = a)) := by
+              intro hh
+              have hl := hc.views.edge_listed e' x y hf
+              rcases hh with ⟨h1, h2⟩ | ⟨hd, h1, h2⟩
+              · subst h1; subst h2; rw [hl.1] at hO; injection hO with hO; exact hee hO.symm
+              · subst h1; subst h2; rw [(hl.2.2 hd).1] at hO; injection hO with hO; exact hee hO.symm
+            simp only [Rel, List.mem_cons, Prod.mk.injEq]
+            grind
+
+theorem distinct_out (d : Bool) (n : Nat) (l : List Nat) (h : List.Pairwise (· < ·) l) :
+    DistinctRel d (l.map (fun y => (n, y))) := by
+  induction l with
+  | nil => trivial
+  | cons y r ih =>
+    rw [List.pairwise_cons] at h
+    refine ⟨?_, ih h.2⟩
+    simp only [Rel, List.mem_map, Prod.mk.injEq]
+    rintro (⟨y', hy', _, rfl⟩ | ⟨_, y', hy', rfl, rfl⟩)
+    · have := h.1 _ hy'; omega
+    · have := h.1 _ hy'; omega
+
+theorem distinct_in (d : Bool) (n : Nat) (l : List Nat) (h : List.Pairwise (· < ·) l) :
+    DistinctRel d (l.map (fun y => (y, n))) := by
+  induction l with
+  | nil => trivial
+  | cons y r ih =>
+    rw [List.pairwise_cons] at h
+    refine ⟨?_, ih h.2⟩
+    simp only [Rel, List.mem_map, Prod.mk.injEq]
+    rintro (⟨y', hy', rfl, _⟩ | ⟨_, y', hy', rfl, rfl⟩)
+    · have := h.1 _ hy'; omega
+    · have := h.1 _ hy'; omega
+
+theorem mem_outKeys {g : G} {n y : Nat} : y ∈ g.outKeys n ↔ (g.outE n y).isSome = true := by
+  unfold outKeys G.outE
+  rcases find_cases n g.nodes with hf | ⟨r, hf⟩
+  · simp [hf]
+  · simp [hf, mem_keys_iff]
+
+theorem mem_inKeys {g : G} {n y : Nat} : y ∈ g.inKeys n ↔ (g.inE n y).isSome = true := by
+  unfold inKeys G.inE
+  rcases find_cases n g.nodes with hf | ⟨r, hf⟩
+  · simp [hf]
+  · simp [hf, mem_keys_iff]
+
+theorem asc_outKeys {g : G} (hs : Sorted g) (n : Nat) : List.Pairwise (· < ·) (g.outKeys n) := by
+  unfold outKeys
+  rcases find_cases n g.nodes with hf | ⟨r, hf⟩
+  · simp [hf]
+  · simp only [hf]; exact (hs.rows n r hf).1
+
+theorem asc_inKeys {g : G} (hs : Sorted g) (n : Nat) : List.Pairwise (· < ·) (g.inKeys n) := by
+  unfold inKeys
+  rcases find_cases n g.nodes with hf | ⟨r, hf⟩
+  · simp [hf]
+  · simp only [hf]; exact (hs.rows n r hf).2
+
+/-- what `deleteNode n` did: `n` and every relation touching it are gone from all views -/
+structure Deleted (n : Nat) (g g' : G) : Prop where
+  hasNode : ∀ x, g'.hasNode x = (!decide (x = n) && g.hasNode x)
+  keys : AL.keys g'.nodes = (AL.keys g.nodes).filter (· ≠ n)
+  outE : ∀ x y, g'.outE x y = if x = n ∨ y = n then none else g.outE x y
+  inE : ∀ x y, g'.inE y x = if x = n ∨ y = n then none else g.inE y x
+  edges : ∀ e, find e g'.edges =
+    match find e g.edges with
+    | some (a, b) => if a = n ∨ b = n then none else some (a, b)
+    | none => none
+  rest : g'.directed = g.directed ∧ g'.nextNode = g.nextNode ∧ g'.nextEdge = g.nextEdge ∧ g'.root = g.root
+
+theorem deleteNode_absent {g : G} {n : Nat} (h : g.hasNode n = false) : deleteNode n g = .exc g := by
+  simp [deleteNode, h]
+
+theorem deleteNode_spec {g : G} (hc : Consistent g) {n : Nat} (hn : g.hasNode n = true) :
+    ∃ g', deleteNode n g = .ok () g' ∧ Consistent g' ∧ Deleted n g g' := by
+  -- first loop
+  have hp1 : ∀ p ∈ (g.outKeys n).map (fun y => (n, y)), (g.outE p.1 p.2).isSome = true := by
+    intro p hp
+    simp only [List.mem_map] at hp
+    obtain ⟨y, hy, rfl⟩ := hp
+    exact mem_outKeys.mp hy
+  obtain ⟨g1, h1, hc1, u1⟩ := unlinkMany_spec hc _ hp1 (distinct_out _ n _ (asc_outKeys hc.sorted n))
+  have hd1 : g1.directed = g.directed := u1.rest.1
+  have hO1 : ∀ y, g1.outE n y = none := by
+    intro y
+    rw [u1.outE]
+    by_cases hy : y ∈ g.outKeys n
+    · have : Rel g.directed ((g.outKeys n).map (fun y => (n, y))) n y := Or.inl (List.mem_map.mpr ⟨y, hy, rfl⟩)
+      simp [this]
+    · have : g.outE n y = none := by
+        have := mt mem_outKeys.mpr hy
+        cases h : g.outE n y <;> simp_all
+      split <;> simp [this]
+  -- second loop
+  have hp2 : ∀ p ∈ (g1.inKeys n).map (fun y => (y, n)), (g1.outE p.1 p.2).isSome = true := by
+    intro p hp
+    simp only [List.mem_map] at hp
+    obtain ⟨y, hy, rfl⟩ := hp
+    have hI := mem_inKeys.mp hy
+    rcases hIe : g1.inE n y with _ | e
+    · simp [hIe] at hI
+    · have := hc1.views.in_edge y n e hIe
+      rcases this with hE | ⟨hd, hE⟩
+      · simp [(hc1.views.edge_listed e y n hE).1]
+      · have := (hc1.views.edge_listed e n y hE).1
+        rw [hO1] at this; cases this
+  obtain ⟨g2, h2, hc2, u2⟩ := unlinkMany_spec hc1 _ hp2 (distinct_in _ n _ (asc_inKeys hc1.sorted n))
+  have hO2 : ∀ y, g2.outE n y = none := by
+    intro y; rw [u2.outE, hO1]; split <;> rfl
+  have hI2 : ∀ y, g2.inE n y = none := by
+    intro y
+    rw [u2.inE]
+    by_cases hy : y ∈ g1.inKeys n
+    · have : Rel g1.directed ((g1.inKeys n).map (fun y => (y, n))) y n := Or.inl (List.mem_map.mpr ⟨y, hy, rfl⟩)
+      simp [this]
+    · have : g1.inE n y = none := by
+        have := mt mem_inKeys.mpr hy
+        cases h : g1.inE n y <;> simp_all
+      split <;> simp [this]
+  have hn1 : g1.hasNode n = true := by rw [u1.hasNode]; exact hn
+  have hn2 : g2.hasNode n = true := by rw [u2.hasNode]; exact hn1
+  have hrun : deleteNode n g = .ok () { g2 with nodes := AL.erase n g2.nodes, pending := g2.pending ++ [.nodes [n]] } := by
+    simp only [deleteNode, hn, isolateOut_eq, h1, hn1, isolateIn_eq, h2, hn2]
+    simp
+  -- views of the final state
+  have hrow : ∀ x, find x (AL.erase n g2.nodes) = if n = x then none else find x g2.nodes := fun x => find_erase _ _ _
+  have hN' : ∀ x, AL.has x (AL.erase n g2.nodes) = (!decide (x = n) && g2.hasNode x) := by
+    intro x
+    simp only [has, hrow, G.hasNode]
+    by_cases h : n = x
+    · subst h; simp
+    · have : ¬ x = n := fun h' => h h'.symm
+      simp [h, this]
+  have hOf : ∀ x y, (find x (AL.erase n g2.nodes)).bind (fun r => find y r.out) = if x = n then none else g2.outE x y := by
+    intro x y
+    simp only [hrow, G.outE]
+    by_cases h : n = x
+    · subst h; simp
+    · have : ¬ x = n := fun h' => h h'.symm
+      simp [h, this]
+  have hIf : ∀ x y, (find y (AL.erase n g2.nodes)).bind (fun r => find x r.inn) = if y = n then none else g2.inE y x := by
+    intro x y
+    simp only [hrow, G.inE]
+    by_cases h : n = y
+    · subst h; simp
+    · have : ¬ y = n := fun h' => h h'.symm
+      simp [h, this]
+  refine ⟨_, hrun, ?_, ?_⟩
+  · refine ⟨?_, ?_, hc2.edge_lt, ?_⟩
+    · exact hc2.views.eraseNode n hO2 hI2 hN' hOf hIf
+    · intro x hx
+      have : g2.hasNode x = true := by
+        have := hN' x
+        simp only [G.hasNode] at hx
+        rw [this] at hx
+        simp at hx; exact hx.2
+      exact hc2.node_lt x this
+    · refine ⟨asc_erase _ _ hc2.sorted.nodes, hc2.sorted.edges, ?_⟩
+      intro x r hr
+      rw [hrow] at hr
+      split at hr
+      · cases hr
+      · exact hc2.sorted.rows x r hr
+  · -- Deleted n g (final)
+    have hrel1 : ∀ x y, x ≠ n → y ≠ n → ¬ Rel g.directed ((g.outKeys n).map (fun y => (n, y))) x y := by
+      intro x y hx hy h
+      simp only [Rel, List.mem_map, Prod.mk.injEq] at h
+      rcases h with ⟨_, _, h, _⟩ | ⟨_, _, _, h, _⟩
+      · exact hx h.symm
+      · exact hy h.symm
+    have hrel2 : ∀ x y, x ≠ n → y ≠ n → ¬ Rel g1.directed ((g1.inKeys n).map (fun y => (y, n))) x y := by
+      intro x y hx hy h
+      simp only [Rel, List.mem_map, Prod.mk.injEq] at h
+      rcases h with ⟨_, _, _, h⟩ | ⟨_, _, _, _, h⟩
+      · exact hy h.symm
+      · exact hx h.symm
+    refine ⟨?_, ?_, ?_, ?_, ?_, by simp [u2.rest, u1.rest]⟩
+    · intro x
+      show AL.has x (AL.erase n g2.nodes) = _
+      rw [hN', u2.hasNode, u1.hasNode]
+    · show AL.keys (AL.erase n g2.nodes) = _
+      rw [← u1.keys, ← u2.keys]
+      simp [AL.keys, AL.erase, List.filter_map, Function.comp_def]
+    · intro x y
+      show (find x (AL.erase n g2.nodes)).bind (fun r => find y r.out) = _
+      rw [hOf]
+      by_cases hx : x = n
+      · simp [hx]
+      · by_cases hy : y = n
+        · subst hy
+          simp only [hx, if_false, or_true, if_true]
+          rcases hOe : g2.outE x y with _ | e
+          · rfl
+          · have := hc2.views.out_edge x y e hOe
+            rcases this with hE | ⟨hd, hE⟩
+            · have := (hc2.views.edge_listed e x y hE).2.1
+              rw [hI2] at this; cases this
+            · have := (hc2.views.edge_listed e y x hE).1
+              rw [hO2] at this; cases this
+        · simp only [hx, hy, if_false, or_self]
+          rw [u2.outE, u1.outE]
+          simp [hrel1 x y hx hy, hrel2 x y hx hy]
+    · intro x y
+      show (find y (AL.erase n g2.nodes)).bind (fun r => find x r.inn) = _
+      rw [hIf]
+      by_cases hy : y = n
+      · simp [hy]
+      · by_cases hx : x = n
+        · subst hx
+          simp only [hy, if_false, true_or, if_true]
+          rcases hIe : g2.inE y x with _ | e
+          · rfl
+          · have := hc2.views.in_edge x y e hIe
+            rcases this with hE | ⟨hd, hE⟩
+            · have := (hc2.views.edge_listed e x y hE).1
+              rw [hO2] at this; cases this
+            · have := (hc2.views.edge_listed e y x hE).2.1
+              rw [hI2] at this; cases this
+        · simp only [hx, hy, if_false, or_self]
+          rw [u2.inE, u1.inE]
+          simp [hrel1 x y hx hy, hrel2 x y hx hy]
+    · intro e
+      show find e g2.edges = _
+      rcases find_cases e g.edges with hf | ⟨⟨a, b⟩, hf⟩
+      · rw [u2.edges, u1.edges, hf]
+      · simp only [hf]
+        by_cases hab : a = n ∨ b = n
+        · simp only [hab, if_true]
+          rcases hf2 : find e g2.edges with _ | ⟨a', b'⟩
+          · rfl
+          · have hsub : (a', b') = (a, b) := by
+              have := u2.edges e
+              rw [u1.edges, hf, hf2] at this
+              by_cases r1 : Rel g.directed ((g.outKeys n).map (fun y => (n, y))) a b
+              · simp [r1] at this
+              · simp only [r1, if_false] at this
+                by_cases r2 : Rel g1.directed ((g1.inKeys n).map (fun y => (y, n))) a b
+                · simp [r2] at this
+                · simp only [r2, if_false] at this
+                  injection this
+            injection hsub with ha hb; subst ha; subst hb
+            have hl := hc2.views.edge_listed e a' b' hf2
+            rcases hab with rfl | rfl
+            · rw [hO2] at hl; cases hl.1
+            · rw [hI2] at hl; cases hl.2.1
+        · have ha : a ≠ n := fun h => hab (Or.inl h)
+          have hb : b ≠ n := fun h => hab (Or.inr h)
+          rw [u2.edges, u1.edges, hf]
+          simp [hrel1 a b ha hb, hrel2 a b ha hb, hab]
+
+theorem deleteNode_consistent {g : G} (hc : Consistent g) (n : Nat) : (deleteNode n g).All Consistent := by
+  cases hn : g.hasNode n
+  · rw [deleteNode_absent hn]; exact hc
+  · obtain ⟨g', h, hc', _⟩ := deleteNode_spec hc hn
+    rw [h]; exact hc'
+
 end G
 end Graph
 end Bpp
